@@ -124,6 +124,7 @@ func checkC08(c *Ctx, r *Report) {
 		c08Run(r, p, arch)
 	}
 	taintPositiveControls(c, r)
+	r.Floor("positive_controls", 5)
 	r.Floor("tainted_functions_amd64", 60)
 	r.Floor("branches_examined_amd64", 40)
 	r.Floor("index_exprs_examined_amd64", 500)
